@@ -73,7 +73,13 @@ impl Family for B6 {
         } else if rng.chance(2, 5) {
             // a complete, valid command line with at most one token replaced, dropped or added:
             // reaches the deep paths (unlock, decrypt) on the damaged artefacts
-            let templates: [&[usize]; 7] = [
+            let templates: [&[usize]; 12] = [
+                // valid commands whose -o value has no file-name component ('.', '', '/dev/null')
+                &[2, 31, 11, 39, 17, 33, 23, 15, 36],
+                &[0, 32, 11, 38, 13, 39, 17, 33, 23, 15, 36],
+                &[9, 0, 32, 15, 36, 23],
+                &[9, 0, 32, 15, 26, 23],
+                &[9, 2, 31, 23, 15, 37],
                 &[2, 31, 11, 39, 17, 33, 23],
                 &[2, 31, 11, 39, 17, 33, 23, 15, 35],
                 &[0, 32, 11, 38, 13, 39, 17, 33, 23, 15, 35],
@@ -82,8 +88,8 @@ impl Family for B6 {
                 &[9, 2, 31, 23],
                 &[9, 0, 32, 15, 35, 23],
             ];
-            let mut a: Vec<usize> = templates[rng.usize_below(7)].to_vec();
-            match rng.below(4) {
+            let mut a: Vec<usize> = templates[rng.usize_below(12)].to_vec();
+            match rng.below(5) {
                 0 => {
                     let i = rng.usize_below(a.len());
                     a[i] = rng.usize_below(nv);
